@@ -28,34 +28,35 @@ DEADLINE = {"quick": 1500, "thorough": 4 * 3600}
 ENTRY = ["text", "xml", "pages"]
 
 TIERS = {
-    "quick": {"seeds": list(S.SEEDS), "entries": ["text", "xml"], "payload_seeds": ["xref", "crypt", "pages", "incr"], "payload_replace": [], "trunc_seeds": ["xref", "incr"]},
-    "thorough": {"seeds": list(S.SEEDS), "entries": ENTRY, "payload_seeds": list(S.SEEDS), "payload_replace": [0x00, 0xFF, 0x3C, 0x28], "trunc_seeds": list(S.SEEDS)},
+    "quick": {"seeds": list(S.SEEDS), "entries": ["text", "xml"], "payload_seeds": ["xref", "crypt", "pages", "incr", "ttf", "aes128"], "payload_replace": [], "trunc_seeds": ["xref", "incr"], "payload_replace_seeds": {"ttf": [0x00, 0xFF]}},
+    "thorough": {"seeds": list(S.SEEDS), "entries": ENTRY, "payload_seeds": list(S.SEEDS), "payload_replace": [0x00, 0xFF, 0x3C, 0x28], "trunc_seeds": list(S.SEEDS), "payload_replace_seeds": {}},
 }
 
 META = {
     "rule": (
-        "seeds: 7 generated documents (page tree+labels; simple fonts; composite fonts; xref/object streams; graphics/images/"
-        "colour spaces/inline image/nested forms; RC4 encryption; incremental update with /Prev). The generated object stream and "
+        "seeds: 10 generated documents (page tree+labels; simple fonts; composite fonts; xref/object streams; graphics/images/"
+        "colour spaces/inline image/nested forms; RC4, AES-128 and AES-256 (R6) encryption; incremental update with /Prev; embedded TrueType "
+        "programs with cmap formats 4 and 12). The generated object stream and "
         "cross-reference stream (dictionary entries and payload) and every stream's /Length are fault sites too; /Prev additionally "
         "gets the value 'offset of its own section'. structural faults: every dictionary entry, array element, stream-dictionary "
         "entry, top-level object and trailer entry x {null,int,real,name,string,array,dict,boolean,ref->self,ref->missing,"
         "ref->ancestor(cycle)} (kinds of the value's own type skipped) plus key removal; payload faults: every stream truncated at "
         "every length and emptied (thorough: one byte replaced at every position by 00,FF,'<','('); file truncated at every byte. "
         "One fault per execution, each run through the listed entry points under a counted work budget (sys.monitoring "
-        "PY_START+JUMP events <= 50 x the undamaged seed's count + 100000). non-trivial = the damaged file differs from the seed "
+        "PY_START+JUMP events <= 50 x the undamaged seed's count + 100000 + 2000 x file length). non-trivial = the damaged file differs from the seed "
         "and the outcome was judged; distinct outcomes = (entry point, outcome class, exception type, raising function). "
         "states = damaged documents reached from a seed by one fault (exhaustive single-fault frontier of the fault injector), "
         "transitions = fault applications, traces = executions of an entry point on a damaged document, each judged."
     ),
     "bound": {
-        "quick": "structural faults on all 7 seeds x {extract_text, extract_text_to_fp(xml)}; payload truncation at every length on 4 seeds (xref-stream payload also 00/FF at every position); file truncation at every byte of 2 seeds",
-        "thorough": "structural + payload (truncate, empty, 4 byte values at every position) + every-byte truncation on all 7 seeds x 3 entry points",
+        "quick": "structural faults on all 10 seeds x {extract_text, extract_text_to_fp(xml)}; payload truncation at every length on 6 seeds (xref-stream and TrueType payloads also 00/FF at every position); file truncation at every byte of 2 seeds",
+        "thorough": "structural + payload (truncate, empty, 4 byte values at every position) + every-byte truncation on all 10 seeds x 3 entry points",
     },
     "assumptions": [
         "single faults only; fault values are one representative per PDF type",
         "AssertionError is tolerated (the repository's own fuzz contract fuzzing/extract_text_fuzzer.py accepts it) and counted separately",
-        "'work bounded in proportion to input size' is decided against the fixed factor 50 x baseline + 1e5 events (a chosen constant)",
-        "faults are applied to generated seeds; features the seeds do not contain (JBIG2, TrueType/CFF font programs, AES handlers) are not reached",
+        "'work bounded in proportion to input size' is decided against the bound 50 x baseline + 1e5 + 2000 x file length events (chosen constants)",
+        "faults are applied to generated seeds; features the seeds do not contain (JBIG2, CFF font programs, public-key handlers) are not reached",
     ],
 }
 
@@ -367,7 +368,8 @@ def judge(st, name: str, fault: Tuple, data: bytes, entries: List[str], seed_byt
     st.transitions += 1
     for entry in entries:
         st.traces += 1
-        budget = 50 * baseline(name, entry) + 100000
+        # proportional to the input: a TrueType cmap segment may legitimately expand to 65536 characters per 8 bytes
+        budget = 50 * baseline(name, entry) + 100000 + 2000 * len(data)
         cls, detail, n = run_entry(entry, data, budget)
         st.case((name, fault, entry), nontrivial=(data != seed_bytes), outcome=(entry, cls, detail))
         st.add("outcome_" + cls, 1)
@@ -416,7 +418,7 @@ def run_shard(shard, tier, st):
         for pos in range(0, n):
             f = ("payload", num, "trunc", pos, 0)
             judge(st, name, f, materialise(name, f), t["entries"], seed_bytes)
-            for val in t["payload_replace"]:
+            for val in t["payload_replace"] or t["payload_replace_seeds"].get(name, []):
                 if doc.objs[num][1].data[pos] != val:
                     f = ("payload", num, "byte", pos, val)
                     judge(st, name, f, materialise(name, f), t["entries"], seed_bytes)
